@@ -420,7 +420,32 @@ fn op_rb(input: &[u8]) -> String {
     } else {
         "na".to_string()
     };
-    format!("hdr={} raw={} sec={} items={} addr={}", hex(h.as_bytes()), show(raw), show(sec), it, addr)
+    // the same parts handed over as one batch (the first write of a fresh builder)
+    let braw = v2::Builder::new(vc, afp)
+        .write_payloads([h.address_bytes(), h.tlv_bytes()])
+        .and_then(|b| b.build());
+    let baddr = if h.address_family() != v2::AddressFamily::Unspecified {
+        match &items {
+            Ok(items) => show(
+                v2::Builder::with_addresses(h.version | h.command, h.protocol, h.addresses)
+                    .write_payloads(items.iter())
+                    .and_then(|b| b.build()),
+            ),
+            Err(_) => "na".to_string(),
+        }
+    } else {
+        "na".to_string()
+    };
+    format!(
+        "hdr={} raw={} sec={} items={} addr={} braw={} baddr={}",
+        hex(h.as_bytes()),
+        show(raw),
+        show(sec),
+        it,
+        addr,
+        show(braw),
+        baddr
+    )
 }
 
 // ---------------------------------------------------------------- builder / writer
